@@ -60,6 +60,10 @@ pub struct Case {
     /// options: what it then echoes is what the emitted metadata *record*
     #[serde(default)]
     pub rerun: bool,
+    /// where the metadata lines stand in the file: 0 before the components, 1 after the first component line,
+    /// 2 at the end of the file (metadata are `#META key: value` lines wherever they are)
+    #[serde(default)]
+    pub meta_pos: u8,
 }
 
 const BUILDINGS: [&str; 3] = [
@@ -173,8 +177,15 @@ pub fn components_text(c: &Case) -> String {
     if c.dup & 8 != 0 && matches!(c.red1_opt, Red::Valid(_)) {
         s.push_str("#META CTE_RED1: 0.111, 0.222, 0.333\n#META CTE_RED1: 0.900, 0.800, 0.700\n");
     }
-    s.push_str(BUILDINGS[c.bidx % BUILDINGS.len()]);
-    s
+    let body = BUILDINGS[c.bidx % BUILDINGS.len()];
+    match c.meta_pos % 3 {
+        0 => format!("{}{}", s, body),
+        1 => {
+            let (first, rest) = body.split_once('\n').unwrap_or((body, ""));
+            format!("{}\n{}{}", first, s, rest)
+        }
+        _ => format!("{}{}", body, s),
+    }
 }
 
 pub fn argv(c: &Case) -> Vec<String> {
@@ -414,11 +425,11 @@ impl Prop for C19 {
             ),
             (red_v(), red_v(), red_v(), red_v()),
             (proptest::option::weighted(0.3, 0usize..2), 0usize..3, any::<bool>(), prop::bool::weighted(0.2), prop::bool::weighted(0.15), prop_oneof![3 => Just(0u8), 2 => 0u8..16]),
-            (prop_oneof![3 => Just(0u8), 1 => 0u8..16], prop::bool::weighted(0.35)),
+            (prop_oneof![3 => Just(0u8), 1 => 0u8..16], prop::bool::weighted(0.35), prop_oneof![3 => Just(0u8), 1 => Just(1u8), 1 => Just(2u8)]),
         )
-            .prop_map(|((area_opt, area_meta, k_opt, k_meta, loc_opt, loc_meta), (red1_opt, red1_meta, red2_opt, red2_meta), (ffile, bidx, lm, no_strip, legacy_meta_keys, red_form), (dup, rerun))| {
+            .prop_map(|((area_opt, area_meta, k_opt, k_meta, loc_opt, loc_meta), (red1_opt, red1_meta, red2_opt, red2_meta), (ffile, bidx, lm, no_strip, legacy_meta_keys, red_form), (dup, rerun, meta_pos))| {
                 // an empty location metadata value cannot be written as `#META key:` + nothing on a legacy key: keep as is
-                Case { area_opt, area_meta, k_opt, k_meta, loc_opt, loc_meta, red1_opt, red1_meta, red2_opt, red2_meta, ffile, bidx, lm, no_strip, legacy_meta_keys, red_form, dup, rerun }
+                Case { area_opt, area_meta, k_opt, k_meta, loc_opt, loc_meta, red1_opt, red1_meta, red2_opt, red2_meta, ffile, bidx, lm, no_strip, legacy_meta_keys, red_form, dup, rerun, meta_pos }
             })
             .boxed()
     }
